@@ -68,6 +68,8 @@ pub enum Atom {
     AnyNe(Vec<(Op, Op)>),
     /// all pairs equal (a conjunction that may be negated as a unit)
     AllEq(Vec<(Op, Op)>),
+    /// at least one of the pairs is equal (zero-product law applied to a product term)
+    AnyEq(Vec<(Op, Op)>),
     False,
 }
 
@@ -275,6 +277,26 @@ pub fn subst(op: Op, map: &HashMap<u32, Op>, root_keep: bool) -> Op {
     }
     let mut memo = HashMap::new();
     go(op, map, &mut memo, true, root_keep)
+}
+
+/// Multiplicative factors of a term (through `Mul` and `Neg` nodes): t == 0 iff some factor == 0.
+pub fn factors(op: Op) -> Vec<Op> {
+    let mut out = vec![];
+    let mut stack = vec![op];
+    while let Some(o) = stack.pop() {
+        match o {
+            Op::C(_) => out.push(o),
+            Op::N(i) => match node_of(i) {
+                Node::Mul(a, b) => {
+                    stack.push(a);
+                    stack.push(b);
+                }
+                Node::Neg(a) => stack.push(a),
+                _ => out.push(o),
+            },
+        }
+    }
+    out
 }
 
 /// Does the term DAG of `op` contain node `target`?
